@@ -104,6 +104,22 @@ pub(crate) mod verif_kani_regset {
         assert!(it2.current == 0 && view(it2.registers) == view(&s));
     }
 
+    /// Collecting the iterator into a Vec (what Serialize and the lints do; exercises next() together with any
+    /// size_hint). BOUNDED: four concrete sets that put the cursor on every boundary ({x0}, {x31}, {x30, x31}, {x5, x17}):
+    /// a symbolic pair of registers did not finish in 600 s (Vec growth under CBMC).
+    #[kani::proof]
+    #[kani::unwind(34)]
+    fn iter_collect_vec_small() {
+        let v: Vec<Register> = of_view(1).iter().collect();
+        assert!(v.len() == 1 && v[0] == Register::X0);
+        let v: Vec<Register> = of_view(1 << 31).iter().collect();
+        assert!(v.len() == 1 && v[0] == Register::X31);
+        let v: Vec<Register> = of_view(3 << 30).iter().collect();
+        assert!(v.len() == 2 && v[0] == Register::X30 && v[1] == Register::X31);
+        let v: Vec<Register> = of_view((1 << 5) | (1 << 17)).iter().collect();
+        assert!(v.len() == 2 && v[0] == Register::X5 && v[1] == Register::X17);
+    }
+
     /// FromIterator on an arbitrary sequence (length <= 3 here; the body is set_register, whose
     /// contract is proved for all inputs) yields the union of the singletons.
     #[kani::proof]
